@@ -395,6 +395,17 @@ def ops_allowed(model, sd):
     absent from replayed / shrunk scenarios."""
     import copy
 
+    from . import driver
+
+    for op in sd["ops"]:
+        if op["k"] == "delblock" and op.get("proxy"):
+            try:
+                key, _, _ = driver.resolve_op(model, op)
+            except Exception:
+                return False
+            sp = model.spans[key]
+            if sp.func and sum(1 for s2 in model.span_list[sp.sect] if s2.func == sp.func and s2.size) > 1:
+                return False
     ops = copy.deepcopy(sd["ops"])
     before = json_key(ops)
     _avoid_ambiguous(model, ops)
@@ -427,9 +438,9 @@ def shape_ok(model, sd, params):
     try:
         mods = []
         for oi, op in enumerate(sd["ops"]):
-            key, off, length = driver.resolve_op(m, op)
-            sp = m.spans[key]
-            mods.append(((m.section_order.index(sp.sect), m.sections[sp.sect].index(sp.unit), sp.start), off, oi, op, length, key))
+            for key, off, length, op2 in driver.expand_op(m, op):
+                sp = m.spans[key]
+                mods.append(((m.section_order.index(sp.sect), m.sections[sp.sect].index(sp.unit), sp.start), off, oi, op2, length, key))
         mods.sort(key=lambda x: (x[0], x[1], x[2]))
         for _, off, oi, op, length, key in mods:
             if op["k"] in ("del", "delblock"):
@@ -503,7 +514,20 @@ def _gen_session(rng, model, params, index):
         in_data = sp.kind == "data"
         r = rng.random()
         if r < params.get("delblock_p", 0.15):
-            ops.append({"k": "delblock", "tok": toks[0][1], "proxy": rng.random() < 0.3})
+            proxy = rng.random() < 0.3
+            nfunc = sum(1 for s2 in model.span_list[sp.sect] if s2.func == sp.func and s2.size) if sp.func else 0
+            if proxy and sp.func and nfunc > 1:
+                # deleting part of a function with retarget_to_proxy leaves
+                # an orphaned body: use delete_function for the whole of it
+                if rng.random() < 0.6 and not any(o["k"] == "delfn" and o["func"] == sp.func for o in ops):
+                    for s2 in model.span_list[sp.sect]:
+                        if s2.func == sp.func:
+                            seen.add(s2.key)
+                    ops[:] = [o for o in ops if _op_func(model, o) != sp.func]
+                    ops.append({"k": "delfn", "func": sp.func})
+                    continue
+                proxy = False
+            ops.append({"k": "delblock", "tok": toks[0][1], "proxy": proxy})
             # (a proxy deletion stays alone on its block: what 'the labels of
             # the deleted block' are is ambiguous once a patch precedes it)
             continue
@@ -550,6 +574,18 @@ def _gen_session(rng, model, params, index):
     return {"ops": ops, "reg_order": order}
 
 
+def _op_func(model, op):
+    from . import driver
+
+    try:
+        if op["k"] == "delfn":
+            return op["func"]
+        key, _, _ = driver.resolve_op(model, op)
+        return model.spans[key].func
+    except Exception:
+        return None
+
+
 def _avoid_ambiguous(model, ops):
     """Steer away from combinations whose listing reading is ambiguous
     (DESIGN 9a): a trailing patch label at the end of a block when something
@@ -560,6 +596,8 @@ def _avoid_ambiguous(model, ops):
 
     loc = {}
     for oi, op in enumerate(ops):
+        if op["k"] == "delfn":
+            continue
         try:
             key, off, length = driver.resolve_op(model, op)
         except Exception:
